@@ -26,21 +26,30 @@
 (*            interpreter, shared by every file, generator, context and run.  A filter that writes to such an     *)
 (*            object (say a hanging indent for an indented documentation line) and does not restore it lets the   *)
 (*            doc comment of one type decide how the doc comment of a later type is wrapped.                     *)
+(*   reg   -- a first-come registry of names DERIVED from a type (macro-cased / snake-cased / separator-free /  *)
+(*            truncated / stropped spelling of its full name, say the C include guard) kept on the Language      *)
+(*            object: a derivation is not injective, two DISTINCT types of one run may collide under it, and a    *)
+(*            registry that gives the later of two colliding types an ordinal suffix makes the file of a type      *)
+(*            depend on whether the sibling is generated in the same run (or was in an earlier run with the same    *)
+(*            LanguageContext) and on the processing order.  Not a behaviour of the pinned tree: the design flaw    *)
+(*            "a derived name is disambiguated by arrival", kept as a negative control (PureDerivedNames = FALSE). *)
 (* Files are sequences of abstract lines:                                                                 *)
 (*   <<"E">> empty line, <<"T",t>> the type's own text, <<"L",k>> unique name from a literal base token,   *)
 (*   <<"D",k>> unique name from a computed base token, <<"M",a,b>> imported module-level name a and a name  *)
 (*   b made by an imported macro, <<"I",u>> include of dependency u, <<"N",w,c>> a field whose name is spelled  *)
 (*   w, emitted stropped (c) or as it is, <<"C",t,s>> the doc comments of t rendered under filter state s,      *)
+(*   <<"G",k,o>> a name derived from the type (derived key k, ordinal o given by the registry),                  *)
 (*   <<"S">> include of the serialization                                                                   *)
 (*   support (absent with omit_serialization_support).                                                     *)
 (* One action per critical step of DSDLCodeGenerator._generate_type/_generate_code:                        *)
 (*   StartRun (build_namespace_tree + generator construction or reuse), Compile (env.get_template),         *)
 (*   Render (UniqueNameGenerator.reset + template.generate), Post (line post-processors + write).          *)
-(* The four boolean constants select, per mechanism, the behaviour that satisfies the property (TRUE) or    *)
+(* The boolean constants select, per mechanism, the behaviour that satisfies the property (TRUE) or    *)
 (* the behaviour found in the pinned tree (FALSE); TLC proves I => P for all-TRUE and refutes each FALSE.   *)
 (* FullStropKey = FALSE is not a behaviour of the pinned tree: it is the design flaw "memo keyed by spelling   *)
 (* only", kept as a negative control whose violating histories are replayed against the real code; likewise    *)
-(* PureFilters = FALSE: "a filter keeps state between files".                                                 *)
+(* PureFilters = FALSE: "a filter keeps state between files" and PureDerivedNames = FALSE: "a registry of        *)
+(* derived names hands out ordinals in order of arrival".                                                      *)
 EXTENDS GenSiblingsP, TLC, Json
 
 CONSTANTS NTypes,          \* types are 1..NTypes (3 or 4)
@@ -57,16 +66,19 @@ CONSTANTS NTypes,          \* types are 1..NTypes (3 or 4)
           Words,           \* spellings: 1 = clean as "path" but reserved as "any", 2 = plain, 3 = keyword (both)
           FullStropKey,    \* TRUE: the stropping memo is keyed by (token, token type) (or absent)
           Docs,            \* 0 = types without documentation, 1 = type 2 has indented doc lines, 1 and 3 long ones
-          PureFilters      \* TRUE: a template filter's result depends on its arguments only
+          PureFilters,     \* TRUE: a template filter's result depends on its arguments only
+          Confs,           \* 0 = no two types collide under a name derivation, 1 = types 1 and 2 (which do not refer
+                           \* to each other) have the same derived name and the template shows the derived name
+          PureDerivedNames \* TRUE: a derived name is a function of the type alone (the registry never alters a name)
 
-VARIABLES shape, limit, word, docs,  \* scenario parameters (chosen in Init)
-          uniq, lim, tplc, modv, depc, unch, fst,
+VARIABLES shape, limit, word, docs, conf,  \* scenario parameters (chosen in Init)
+          uniq, lim, tplc, modv, depc, unch, fst, reg,
           run, last, nruns, pc, cur, raw,
           memo, ok,        \* P-layer memo and verdict
           hist             \* history (for case emission only; hidden by VIEW in exhaustive configs)
 
-vars == <<shape, limit, word, docs, uniq, lim, tplc, modv, depc, unch, fst, run, last, nruns, pc, cur, raw, memo, ok, hist>>
-View == <<shape, limit, word, docs, uniq, lim, tplc, modv, depc, unch, fst, run, last, nruns, pc, cur, raw, memo, ok>>
+vars == <<shape, limit, word, docs, conf, uniq, lim, tplc, modv, depc, unch, fst, reg, run, last, nruns, pc, cur, raw, memo, ok, hist>>
+View == <<shape, limit, word, docs, conf, uniq, lim, tplc, modv, depc, unch, fst, reg, run, last, nruns, pc, cur, raw, memo, ok>>
 
 Types == 1..NTypes
 
@@ -107,6 +119,15 @@ SetsFilterState(t) == t = 2
 ShowsFilterState(t) == t \in {1, 3}
 ShapesPlain == {Shape(0, 0, 0, 0, FALSE, FALSE, FALSE)}
 
+(* ---- derived names: the key under which a type's derived name is registered; with conf = 1 the derivation    *)
+(* maps types 1 and 2 to one key (FooBar / Foo_Bar -> FOO_BAR, Ver.1.10 / Ver.11.0 -> Ver110, ...)               *)
+DKey(t) == IF conf = 1 /\ t = 2 THEN 1 ELSE t
+NoReg == [k \in {} |-> <<>>]
+Owners(k) == IF k \in DOMAIN reg THEN reg[k] ELSE <<>>
+
+RECURSIVE IndexOf(_, _, _)
+IndexOf(s, x, i) == IF i > Len(s) THEN 0 ELSE IF s[i] = x THEN i ELSE IndexOf(s, x, i + 1)
+
 (* ---- the P key of a generated file: shape and limit are fixed per scenario, hence implicit ----          *)
 PKey(d, t, omit) == <<t, Refs(d, t), omit>>
 
@@ -130,6 +151,7 @@ Idle == [d |-> 0, ord |-> <<>>, omit |-> FALSE]
 
 Init ==
     /\ shape \in Shapes /\ limit \in Limits /\ word \in Words /\ docs \in Docs /\ fst = 0
+    /\ conf \in Confs /\ reg = NoReg
     /\ uniq = NoUniq /\ lim = 0 /\ tplc = NoTpl /\ modv = 0 /\ depc = NoDeps /\ unch = {}
     /\ run = Idle /\ last = Idle /\ nruns = 0 /\ pc = "idle" /\ cur = 0 /\ raw = <<>>
     /\ memo = EmptyMemo /\ ok = TRUE /\ hist = <<>>
@@ -145,6 +167,7 @@ StartRun(d, ord, mode, omit) ==
     /\ IF mode = "gen" THEN UNCHANGED <<lim, tplc, modv>>
        ELSE lim' = 0 /\ tplc' = NoTpl /\ modv' = 0               \* new pp objects, new Jinja environment
     /\ depc' = IF mode \in {"gen", "lctx"} THEN depc ELSE NoDeps  \* the memo lives in the Language object
+    /\ reg' = IF mode \in {"gen", "lctx"} THEN reg ELSE NoReg     \* so does a registry of derived names
     /\ LET u0  == IF mode \in {"gen", "lctx"} THEN unch ELSE {}  \* so does the TokenEncoder
            \* build_namespace_tree strops the path tokens of every listed type (a reused generator keeps its tree)
            req == mode # "gen" /\ HasStem({ord[i] : i \in 1..Len(ord)})
@@ -155,7 +178,7 @@ StartRun(d, ord, mode, omit) ==
     /\ nruns' = nruns + 1
     /\ pc' = "compile" /\ cur' = ord[1]
     /\ hist' = Append(hist, [d |-> d, ord |-> ord, mode |-> mode, omit |-> omit, files |-> <<>>])
-    /\ UNCHANGED <<shape, limit, word, docs, raw, memo, ok>>
+    /\ UNCHANGED <<shape, limit, word, docs, conf, raw, memo, ok>>
 
 (* template = self._env.get_template(name): compiled on first use in this environment                      *)
 Compile ==
@@ -167,7 +190,7 @@ Compile ==
             ELSE /\ tplc' = [c |-> TRUE, f |-> FALSE, v |-> <<>>]
                  /\ UNCHANGED uniq
     /\ pc' = "render"
-    /\ UNCHANGED <<shape, limit, word, docs, lim, modv, depc, unch, fst, run, last, nruns, cur, raw, memo, ok, hist>>
+    /\ UNCHANGED <<shape, limit, word, docs, conf, lim, modv, depc, unch, fst, reg, run, last, nruns, cur, raw, memo, ok, hist>>
 
 (* UniqueNameGenerator.reset(); then the template body runs top to bottom                                  *)
 Render ==
@@ -186,6 +209,10 @@ Render ==
            deps == IF hit THEN depc[k] ELSE Deps(run.d)[t]
            nreq == shape.nam /\ t = 1                       \* {{ field | id }}: token type "any"
            nch  == IF ~FullStropKey /\ word \in unch THEN FALSE ELSE Changed(word, "any")
+           dk   == DKey(t)                                   \* {{ T | derived_name }}
+           own  == Owners(dk)
+           at   == IndexOf(own, t, 1)
+           dord == IF PureDerivedNames THEN 0 ELSE (IF at = 0 THEN Len(own) ELSE at - 1)
            incl == IF shape.inc
                    THEN [i \in 1..Cardinality(deps) |-> <<"I", SortedSeq(deps)[i]>>] \o (IF run.omit THEN <<>> ELSE << <<"S">> >>)
                    ELSE <<>>
@@ -195,6 +222,7 @@ Render ==
                     \o [i \in 1..shape.dyn |-> <<"D", dynv[i]>>]
                     \o (IF shape.mod THEN << <<"M", mv, n3>> >> ELSE <<>>)
                     \o (IF nreq THEN << <<"N", word, nch>> >> ELSE <<>>)
+                    \o (IF conf = 1 THEN << <<"G", dk, dord>> >> ELSE <<>>)
                     \o incl
                     \o Rep(<<"E">>, shape.trail)
           /\ uniq' = [init |-> TRUE, n |-> n4]
@@ -204,8 +232,11 @@ Render ==
                      ELSE depc
           /\ unch' = IF nreq /\ ~FullStropKey /\ ~nch THEN unch \cup {word} ELSE unch
           /\ fst' = IF docs = 1 /\ SetsFilterState(t) /\ ~PureFilters THEN 1 ELSE fst
+          /\ reg' = IF conf = 1 /\ at = 0                     \* the registry itself may stay (say to report collisions)
+                    THEN [x \in (DOMAIN reg) \cup {dk} |-> IF x = dk THEN Append(own, t) ELSE reg[x]]
+                    ELSE reg
     /\ pc' = "post"
-    /\ UNCHANGED <<shape, limit, word, docs, lim, tplc, run, last, nruns, cur, memo, ok, hist>>
+    /\ UNCHANGED <<shape, limit, word, docs, conf, lim, tplc, run, last, nruns, cur, memo, ok, hist>>
 
 (* _generate_with_line_buffer through the shared LimitEmptyLines object, write, record                      *)
 Post ==
@@ -222,7 +253,7 @@ Post ==
        THEN run' = Idle /\ pc' = "idle" /\ cur' = 0
        ELSE run' = [run EXCEPT !.ord = Tail(@)] /\ pc' = "compile" /\ cur' = run.ord[2]
     /\ raw' = <<>>
-    /\ UNCHANGED <<shape, limit, word, docs, uniq, tplc, modv, depc, unch, fst, last, nruns>>
+    /\ UNCHANGED <<shape, limit, word, docs, conf, uniq, tplc, modv, depc, unch, fst, reg, last, nruns>>
 
 (* A history ends when the property has been violated (the violating state is kept as a terminal state so    *)
 (* that EmitBad can print it).                                                                              *)
@@ -250,8 +281,8 @@ LimitRespected == limit > 0 => \A k \in DOMAIN memo : MaxERun(memo[k], 1, 0, 0) 
 OwnLineKept == \A k \in DOMAIN memo : \E i \in 1..Len(memo[k]) : memo[k][i] = <<"T", k[1]>>
 
 (* ---- case emission (spec -> code): one record per complete history ----                                  *)
-Emit == (pc = "idle" /\ nruns = MaxRuns) => PrintT(ToJson([shape |-> shape, limit |-> limit, word |-> word, docs |-> docs, runs |-> hist]))
+Emit == (pc = "idle" /\ nruns = MaxRuns) => PrintT(ToJson([shape |-> shape, limit |-> limit, word |-> word, docs |-> docs, conf |-> conf, runs |-> hist]))
 
 (* ---- negative controls: print every violating history (a predicted defect, replayed against the real code) *)
-EmitBad == ok \/ PrintT(ToJson([shape |-> shape, limit |-> limit, word |-> word, docs |-> docs, runs |-> hist]))
+EmitBad == ok \/ PrintT(ToJson([shape |-> shape, limit |-> limit, word |-> word, docs |-> docs, conf |-> conf, runs |-> hist]))
 =============================================================================
